@@ -250,7 +250,9 @@ class Program:
                 uniq = {}
                 for bj in d["bodies"]:
                     uniq.setdefault(bj["id"], bj)
+                n0 = set(uniq)
                 self.inlined += _inl.inline_program({tag: uniq})
+                d["bodies"] = list(d["bodies"]) + [uniq[k_] for k_ in uniq if k_ not in n0]
             for bj in d["bodies"]:
                 if bj.get("inlined_away"):
                     continue
